@@ -2,7 +2,7 @@
 """seed_store.py <prop> <dirname> <check_result text> : copy a confirmed seeded change into seeded/<dirname>/"""
 import sys, json, os, shutil, glob
 prop, name, result = sys.argv[1], sys.argv[2], sys.argv[3]
-src = "/tmp/seedwork/" + prop
+src = "/tmp/seedwork/" + (sys.argv[4] if len(sys.argv) > 4 else prop)
 dst = "/verif/seeded/" + name
 os.makedirs(dst, exist_ok=True)
 for f in glob.glob(src + "/*"):
